@@ -55,3 +55,46 @@ Proof.
     intros ->. apply (Hit Root Hin). }
   rewrite (wu_fold_tail items [47] Hnr Hgn). reflexivity.
 Qed.
+
+(* C08 over every history of pushes onto a verbatim base followed by a root: the components after the history are
+   the fold, path by path, of the documented verbatim step over the pushed components *)
+Section VH.
+Variables (p : list byte) (k : wprefix) (nm : bool).
+Hypothesis Hk : k_verbatim k = true.
+Hypothesis Hunc : k <> Verbatim [85; 78; 67].
+Hypothesis W : forall r', sep_headed (s_wsep nm) r' ->
+  wprefix_grammar (p ++ r') = Some (k, r') /\ s_norm (p ++ r') = nm.
+
+Definition VB (buf : list byte) : Prop := exists rb, buf = p ++ rb /\ sep_headed (s_wsep nm) rb.
+
+Lemma push_verbatim_inv buf b : VB buf -> noprefix b = true -> b <> [] ->
+  VB (w_push buf b) /\ wspec (w_push buf b) = fold_left vstep (wspec b) (wspec buf).
+Proof.
+  intros (rb & -> & Hrb) Hn Hne. destruct (W rb Hrb) as (Hg & Hnm).
+  assert (Hrb' : sep_headed (s_wsep (s_norm (p ++ rb))) rb) by (rewrite Hnm; exact Hrb).
+  split.
+  - destruct (join_verbatim_struct (p ++ rb) k rb b Hg Hk Hunc Hrb' Hn Hne) as (p' & items & items' & El & _ & _ & _ & _ & _ & _ & Ew).
+    apply app_inv_tail in El. subst p'. rewrite Ew. exists (92 :: render (map cbytes items')). split; [reflexivity|].
+    exists 92, (render (map cbytes items')). split; [reflexivity|]. unfold s_wsep. reflexivity.
+  - apply (wspec_join_verbatim (p ++ rb) k rb b Hg Hk Hunc Hrb' Hn Hne).
+Qed.
+Lemma fold_push_verbatim bs : forall buf, VB buf -> Forall (fun b => noprefix b = true /\ b <> []) bs ->
+  wspec (fold_left w_push bs buf) = fold_left (fun acc b => fold_left vstep (wspec b) acc) bs (wspec buf).
+Proof.
+  induction bs as [|b bs IH]; intros buf Hb H; cbn [fold_left]; [reflexivity|].
+  inversion H as [|? ? (Hn & Hne) Hbs]; subst. destruct (push_verbatim_inv buf b Hb Hn Hne) as (H1 & H2).
+  rewrite (IH _ H1 Hbs), H2. reflexivity.
+Qed.
+End VH.
+
+Theorem wspec_push_history_verbatim a k r bs : wprefix_grammar a = Some (k, r) -> k_verbatim k = true ->
+  k <> Verbatim [85; 78; 67] -> sep_headed (s_wsep (s_norm a)) r -> Forall (fun b => noprefix b = true /\ b <> []) bs ->
+  wspec (fold_left w_push bs a) = fold_left (fun acc b => fold_left vstep (wspec b) acc) bs (wspec a).
+Proof.
+  intros Hg Hk Hunc Hr Hbs.
+  assert (Hrne : r <> []) by (destruct Hr as (s & t & -> & _); discriminate).
+  destruct (grammar_repl_verbatim a k r Hg Hk Hunc Hrne) as (p & El & _ & _ & S).
+  apply (fold_push_verbatim p k (s_norm a) Hk Hunc); [| |exact Hbs].
+  - intros r' Hr'. apply S. destruct k; cbn [fitsv]; try exact I; exact Hr'.
+  - exists r. split; [exact El | exact Hr].
+Qed.
